@@ -6,11 +6,11 @@ PID = "C02"
 
 
 def make_work(rng, tier):
-    n = 150 if tier == "quick" else 2500
+    n = 300 if tier == "quick" else 3000
     work = []
     for i in range(n):
         tables = sqlgen.make_db(rng, max_rows=rng.choice([12, 30, 60]))
-        g = sqlgen.Gen(rng, tables, {"max_depth": 3})
+        g = sqlgen.Gen(rng, tables, {"max_depth": 3, "join_bias": i % 2 == 1})
         runs = []
         for _ in range(3):
             q = g.query()
